@@ -282,6 +282,24 @@ func (b *Bounds) LenAtLeast(x ssa.Value, at ssa.Instruction, t Term) bool {
 			return true
 		}
 	}
+	// t is a φ (a size chosen per branch, e.g. 0/1/2/4 extension bytes): decide per incoming edge, where that branch's guard holds.
+	// Sound because x is an SSA value (its length does not change) that is defined before every predecessor.
+	if t.V != nil {
+		if phi, ok := stripWiden(t.V).(*ssa.Phi); ok && definedBefore(x, phi) {
+			all := len(phi.Edges) > 0
+			for k, ev := range phi.Edges {
+				pred := phi.Block().Preds[k]
+				et := termOf(ev)
+				if !b.LenAtLeast(x, pred.Instrs[len(pred.Instrs)-1], Term{et.V, et.K + t.K}) {
+					all = false
+					break
+				}
+			}
+			if all {
+				return true
+			}
+		}
+	}
 	// t is a count returned by a callee with a verified summary "count ≤ len(arg)" and arg is x or a sub-slice of x
 	if t.V != nil && t.K <= 0 {
 		if ex, ok := stripWiden(t.V).(*ssa.Extract); ok {
@@ -953,4 +971,23 @@ func (b *Bounds) capAtLeast(x ssa.Value, at ssa.Instruction, t Term) bool {
 		return b.termGE(termOf(ms.Cap), t, at)
 	}
 	return false
+}
+
+// definedBefore: the value x is available at the end of every predecessor of phi's block (parameter, or defined in a block
+// that dominates each predecessor).
+func definedBefore(x ssa.Value, phi *ssa.Phi) bool {
+	in, ok := x.(ssa.Instruction)
+	if !ok {
+		_, isParam := x.(*ssa.Parameter)
+		return isParam
+	}
+	if in.Parent() != phi.Parent() {
+		return false
+	}
+	for _, p := range phi.Block().Preds {
+		if in.Block() != p && !in.Block().Dominates(p) {
+			return false
+		}
+	}
+	return true
 }
